@@ -212,6 +212,16 @@ fn main() {
             }
             println!("histories {}", lines.len());
         }
+        Some("trace-builder") => {
+            let hs = wv::builder::read_histories(&get("histories", ""));
+            let lines: Vec<_> = hs.par_iter().enumerate().map(|(k, h)| wv::builder::replay(&format!("b{}", k), h)).collect();
+            let shards: usize = get("shards", "1").parse().unwrap();
+            let per = (lines.len() + shards - 1) / shards.max(1);
+            for (s, chunk) in lines.chunks(per.max(1)).enumerate() {
+                cases::write_lines(&format!("{}.{}", out, s), chunk);
+            }
+            println!("histories {}", lines.len());
+        }
         Some("digests") => {
             // one line per input: id and digest of  parse ; emit  with the default switches (separate process per call)
             let inputs = cases::resolve_inputs(&get("inputs", "gen:100"), seed);
